@@ -26,6 +26,9 @@ UNENCODABLE = [{"comment": 1.5}, {"announce": [None]}, {"url-list": [1.5, "x"]},
                {"source": {"a": 1.5}}, {"httpseeds": [object]}]
 
 
+KIND = [0]
+
+
 def inject(spec, cwd):
     env = dict(os.environ, VERIF_HOME=VERIF, VERIF_REPO=REPO, PYTHONPATH=VERIF)
     proc = subprocess.run([sys.executable, "-m", "harness.faulty_edit"], input=json.dumps(spec),
@@ -70,7 +73,8 @@ def run_case(run, drv, case_seed, pool):
         reads = [os.path.basename(p) for p in tr.reads]
         case = {"case_seed": case_seed, "version": m["version"], "req": req}
         drv.ask(f"ops edit {hx(b'good.torrent')} 1", ("ops", case, (reads, trace)))
-        link = rng.choice(["plain", "plain", "symlink", "hardlink", "bare-relative"])
+        link = ["plain", "bare-relative", "symlink", "hardlink", "plain"][KIND[0] % 5]
+        KIND[0] += 1
         case["link"] = link
         jobs = []
         specs = faults_for(len(new))
